@@ -329,6 +329,11 @@ def execute(case):
     restored = 0
     k2 = crash.get("k2")
     last_crash = max(k, k2) if k2 is not None else k
+    if k2 is not None and "externalised2" in info:
+        # durable state must survive a restart: what was externalised and intact at the first crash is
+        # still there at the second one (nothing in these histories stops an instance)
+        for j in sorted((info["externalised"] - info["damaged"]) - info["externalised2"]):
+            res.violate("C20.5-durable-state-lost-by-restart", {"inst": j, "k": k, "k2": k2})
 
     def status_of(j, created_at, phase):
         kk = k if phase == 1 else last_crash
